@@ -431,13 +431,33 @@ def check_position_space(prog, rep):
                         st.value.func) in ('np.zeros', 'np.empty', 'np.ones') and st.value.args and \
                     isinstance(st.value.args[0], ast.Tuple) and len(st.value.args[0].elts) == 2:
                 allocs[st.targets[0].id] = st
+        ldefs = {}
+        for st0 in ast.walk(f):
+            if isinstance(st0, ast.Assign) and len(st0.targets) == 1 and isinstance(
+                    st0.targets[0], ast.Name):
+                ldefs.setdefault(st0.targets[0].id, []).append(st0.value)
         for v, st in allocs.items():
             joined = [x for x in ast.walk(f) if isinstance(x, ast.BinOp) and isinstance(x.op, ast.Add)
                       and 'unit_cell_positions' in unparse(x) and v in names_in(x)]
+            # ... or appended to a list that starts from the positions of a lattice
+            for x in ast.walk(f):
+                if isinstance(x, ast.Call) and isinstance(x.func, ast.Attribute) and \
+                        x.func.attr == 'extend' and isinstance(x.func.value, ast.Name) and x.args \
+                        and v in names_in(x.args[0]) and any(
+                            'unit_cell_positions' in unparse(d) for d in ldefs.get(
+                                x.func.value.id, [])):
+                    joined.append(x)
+                if isinstance(x, ast.Call) and unparse(x.func) in (
+                        'np.concatenate', 'np.vstack', 'np.append') and v in names_in(x) and \
+                        'unit_cell_positions' in unparse(x):
+                    joined.append(x)
             if not joined:
                 continue
             n += 1
-            cols = unparse(st.value.args[0].elts[1])
+            ce = st.value.args[0].elts[1]
+            if isinstance(ce, ast.Name) and len(ldefs.get(ce.id, [])) == 1:
+                ce = ldefs[ce.id][0]
+            cols = unparse(ce)
             ok = not cols.endswith('.dim') and cols != 'dim'
             rep.instance('GEOM-position-space', {'function': q, 'rows': v, 'columns': cols})
             if not ok:
